@@ -10,6 +10,8 @@ Per property:
   twins:  {verus obligation id: regex over kani harness names} -- harnesses that can supply a counterexample
 """
 
+HOOK_COMMITS = ['6809889b']
+
 PROPS = {
     'C18': {
         'title': 'Structural invariants of the geometry types survive every API history',
